@@ -27,7 +27,7 @@ COMPONENTS = {
     'stub': ['user objective', 'PRNG seam (reports the element random.choice picked)', 'joblib', 'time.time', 'uuid1'],
 }
 PROBES_EXPECTED = ['eq_calls', 'identical', 'all_differ', 'share_some_coordinates', 'share_last_coordinate_only_differ_elsewhere',
-                   'generate_calls', 'rejected_duplicates', 'removals_checked']
+                   'generate_calls', 'rejected_duplicates', 'removals_checked', 'identical_vectors_in_pool']
 
 
 def hooks(ctx, w, D):
@@ -104,7 +104,22 @@ def hooks(ctx, w, D):
                               % (list(solution.vector), list(left[0].vector)))
         return r
 
-    return dict(eq=eq, generate=generate, pop_acceptance=pop_acceptance, archive_remove=archive_remove)
+    def truncate(orig, population, size):
+        # set-based de-duplication relies on identical vectors hashing identically (== is only asked when hashes agree)
+        groups = {}
+        for ind in population:
+            groups.setdefault(tuple(ind.vector), []).append(ind)
+        for vec, members in groups.items():
+            if len(members) >= 2:
+                ctx.check()
+                ctx.probe('identical_vectors_in_pool')
+                if len({hash(x) for x in members}) != 1:
+                    ctx.violation('hash_differs', 'Individual.__hash__', 'designs with the identical vector %r hash differently: '
+                                  'set() cannot de-duplicate them' % (list(vec),))
+                    break
+        return orig(population, size)
+
+    return dict(eq=eq, generate=generate, pop_acceptance=pop_acceptance, archive_remove=archive_remove, truncate=truncate)
 
 
 def run_one(D, opts=None):
